@@ -73,6 +73,10 @@ pub fn scripts() -> Vec<Script> {
 
 /// Parses a (restricted) library text into the generator's model so that the oracles' model-based
 /// classification works on witnesses too: only `use` edges, resources and interface names matter.
+pub fn model_of_pub(lib_text: &str) -> Pkg {
+    model_of(lib_text)
+}
+
 fn model_of(lib_text: &str) -> Pkg {
     let mut pkg = Pkg { ns: "ns".into(), name: "lib".into(), version: None, ifaces: vec![] };
     let mut cur: Option<witgen::Iface> = None;
